@@ -10,6 +10,13 @@ Three layers of correspondence (DESIGN.md section 6, C06):
        that have a Coq model (Model/PTensor.v) additionally through a check function;
  (iii) representation-invariant monitor: every PatternedTensor constructed inside the library during (ii)
        is passed to the extracted repr_inv_b.
+Storage layouts (ii-s): with probability 0.35 per operand (every operation, the extra operands of compositions, stack /
+project / copy_ sources) the physical tensor handed to the library is NOT contiguous: a partially or fully
+expanded (stride-0) torch view, a permuted, sliced (step 2-3, storage offset), 0-dim-at-an-offset or overlapping
+(two dimensions with one stride) view of a larger buffer; compositions start 40% of the time with an operation
+that returns a view of its operand's storage (expand, getitem, permute, ...); in-place operations run on the
+caller's strides.  torch's (sizes, strides, offset, flat storage) of these operands and of the non-contiguous
+results is read through the strided-view model of Model/Storage.v (storage_view_check).
 """
 import itertools, math, random, warnings, json, os, traceback
 from harness.core import *
@@ -51,11 +58,15 @@ PT_REDUCE = CheckFn("c06-pt-reduce", "Model.PTensorOpsCheck", "pt_check_reduce",
 PT_RESHAPE = CheckFn("c06-pt-reshape", "Model.PTensorOpsCheck", "pt_check_reshape", _PT2, imports=_IMP2)  # reshape, view
 PT_STORAGE = CheckFn("c06-pt-storage", "Model.PTensorOpsCheck", "pt_check_storage", _PT2, imports=_IMP2)  # copy_, to
 PT2 = {"select": PT_SELECT, "reduce": PT_REDUCE, "reshape": PT_RESHAPE, "storage": PT_STORAGE}
-CHECKFNS = [BASIC, INDEX, UNIFY, ANTI, FRESHEN, ALPHA, CLONE, PRODUCT, TYPED, REPR, PTCHECK, PT_SELECT, PT_REDUCE, PT_RESHAPE, PT_STORAGE]
+STORAGE_VIEW = CheckFn("c06-storage-view", "Model.Storage", "storage_view_check",
+                       Tup(List(Nat), List(Nat), Nat, List(XvT), List(XvT)), imports=_IMP + ["Model.XVal", "Model.PTensor", "Model.PTensorCheck"])
+CHECKFNS = [BASIC, INDEX, UNIFY, ANTI, FRESHEN, ALPHA, CLONE, PRODUCT, TYPED, REPR, PTCHECK, PT_SELECT, PT_REDUCE, PT_RESHAPE, PT_STORAGE,
+            STORAGE_VIEW]
 
 ASSUMPTIONS = [
     "PhysicalAxis objects are numbered by the harness (uid) in order of first appearance; fresh axes created by the library are numbered in creation order as far as that order is observable (antisubst / rename dict order)",
     "torch's dense elementwise kernels, as_strided views and copy_ are trusted as the reference semantics of the dense operations (the property is stated relative to them)",
+    "storage: a torch tensor is the strided view (storage offset, strides) of its flat storage; reading through a view with stride-0 / permuted / sliced / overlapping strides is trusted to torch and cross-checked against Model/Storage.v on every laid-out operand (storage_view_check); in-place writes through OVERLAPPING storage are undefined in torch itself and not generated",
     "float values are small dyadic rationals, 0, +-inf (NaN where meaningful); transcendental maps (exp, log, logaddexp, log_softmax) are compared with relative tolerance 1e-12 (float64) / 1e-5 (float32), everything else exactly",
 ]
 
@@ -427,6 +438,20 @@ def run(tier, seed):
     for group, cf in PT2.items():
         gv = [(v, d) for v, d in ptvals2 if OPS.GROUP2[v[0]] == group]
         if gv: jobs.append((cf, [v for v, _ in gv], "c06pt" + group, 8, make_done(group, gv)))
+    # (ii-s) storage layouts: torch's (sizes, strides, offset, flat storage) of the laid-out operands and of the
+    # non-contiguous results, read through the strided-view model of Model/Storage.v
+    svals = cov.pop("_svals", [])
+    def storage_done(codes, nk):
+        hist = {}
+        for v, c in zip(svals, codes):
+            hist[c] = hist.get(c, 0) + 1
+            if c:
+                violations.append(Violation("storage view: %s (verdict %d)" % ({10: "sizes / strides of different lengths", 11: "an address outside the storage",
+                                            12: "the strided-view model reads other values than torch"}.get(c, "?"), c),
+                                            case=dict(kind=STORAGE_VIEW.kind, value=v), corr="corr:storage_view_check (Model.Storage vs torch strided storage)",
+                                            failing_input_found=False, call="torch.Tensor storage of PatternedTensor.physical"))
+        cov["tensor_level"]["storage_layouts"]["view_model_checked"] = dict(cases=len(svals), verdicts=hist, kernel_reevaluated=nk)
+    if svals: jobs.append((STORAGE_VIEW, svals, "c06sview", 8, storage_done))
     # (iii) judge everything the monitor saw
     vals = [v for v in MON.seen.values() if v[0] != "malformed"]
     for v in MON.seen.values():
@@ -445,7 +470,7 @@ def run(tier, seed):
     run_jobs(jobs, seed)
     cov["axis_level"]["kernel_reevaluated"] = cov["axis_level"]["kernel_reevaluated"][0]
     cov.update(evaluations=n_axis + n_ops + len(vals), distinct_nontrivial=d_axis + d_ops,
-               rule="axis level: distinct (es, fs) pairs with at least one non-physical axis; tensor level: distinct (operation, operand patterns) instances whose operands are not all dense",
+               rule="axis level: distinct (es, fs) pairs with at least one non-physical axis; tensor level: distinct (operation, operand patterns) instances whose operands are not all dense (the storage layout of the operands -- contiguous / expanded-partial / expanded-full / permuted / strided / offset / overlap -- is a separate histogram: tensor_level.storage_layouts)",
                monitor=dict(constructions_seen=MON.count, distinct_representations=len(vals), kernel_reevaluated=mon_k[0]),
                open_items=OPEN_ITEMS)
     cov.setdefault("samples", [])
@@ -502,7 +527,7 @@ def replay(path):
 
 MANIFEST = dict(
     level="proof",
-    text="Coq theorems about a Gallina model of fggs/indices.py's axis algebra (eval bound, stride = affine form, index inverts eval, pattern injectivity = at most one backing element, unify soundness and -- for typed patterns, unbounded, with the model's own fuel (C06_unify_complete_model_fuel: the model always answers) -- completeness / most general unifier, antiunify generalises both arguments and records parts of equal sizes) and of PatternedTensor: to_dense = denote, view operations, unary maps, binary / commutative / sub / div through expansion WITH broadcasting, __post_init__, dense construction / full / from_int / eye, default_to, getitem (never raises in range), clone/freshen, copy_ and to (value semantics), any (both code paths), dim_to_dense, __iter__, project (typed pairs: the returned dense tensor indexed by paxes is self indexed by vaxes), where (three operands of one typed shape: torch.where of the denotations), reshape / view (typed targets: denotes the reshaped tensor given wf of the result; succeeds on adjacent merges and size-1 insertion / removal with explicit sizes), preservation of the representation invariant by every constructor and its equivalence with the monitor's oracle; Gallina models of stack and copy_'s storage rule. The models are tied to /repo by running both on generated typed axes/patterns (including one-hot operands: no physical axis, ndim >= 1); brute-force specifications judge every implementation output; every listed tensor operation and compositions of up to three are compared with torch on the denoted dense tensors; every PatternedTensor constructed inside the library is checked against the extracted representation invariant.",
+    text="Coq theorems about a Gallina model of fggs/indices.py's axis algebra (eval bound, stride = affine form, index inverts eval, pattern injectivity = at most one backing element, unify soundness and -- for typed patterns, unbounded, with the model's own fuel (C06_unify_complete_model_fuel: the model always answers) -- completeness / most general unifier, antiunify generalises both arguments and records parts of equal sizes) and of PatternedTensor: to_dense = denote, view operations, unary maps, binary / commutative / sub / div through expansion WITH broadcasting, __post_init__, dense construction / full / from_int / eye, default_to, getitem (never raises in range), clone/freshen, copy_ and to (value semantics), any (both code paths), dim_to_dense, __iter__, project (typed pairs: the returned dense tensor indexed by paxes is self indexed by vaxes), where (three operands of one typed shape: torch.where of the denotations), reshape / view (typed targets: denotes the reshaped tensor given wf of the result; succeeds on adjacent merges and size-1 insertion / removal with explicit sizes), preservation of the representation invariant by every constructor and its equivalence with the monitor's oracle; Gallina models of stack and copy_'s storage rule; the strided-view model of torch storage (Model/Storage.v): an elementwise map over the storage is the map of the logical contents for every offset / strides, coordinates along stride-0 dimensions are irrelevant, views with equal logical contents denote the same tensor, and the shortcut 'operate on the repeated cell of an expanded constant' is sound iff it tests that ALL strides are 0 (C06_map_expanded_all_zero / C06_map_expanded_some_zero_refuted). The models are tied to /repo by running both on generated typed axes/patterns (including one-hot operands: no physical axis, ndim >= 1; and, for 35% of the operands, physical tensors that are partially / fully expanded, permuted, sliced, offset or overlapping torch views, the way a caller or an earlier operation of the library may supply them); brute-force specifications judge every implementation output; every listed tensor operation and compositions of up to three are compared with torch on the denoted dense tensors; every PatternedTensor constructed inside the library is checked against the extracted representation invariant.",
     note="Trusted: Coq kernel + vm_compute, extraction cross-checked against vm_compute, the Python harness (numbering of PhysicalAxis objects, independent evaluator of axes), torch's dense kernels as reference. All findings of this check (F1, F16, F16b, F21, F22, F23) are repaired in /repo; F24 (one-element sum types, outside the generated domain) is documented with a Coq witness. Open: where with broadcasting between its operands, stack (model + correspondence), reshape targets with -1 and wf of reshape's result (run-time monitor), fuel sufficiency of unify in general.",
     technique="Coq proof (model + theorems) + model/implementation correspondence with brute-force specification oracles + differential testing against torch on denotations + runtime invariant monitor",
     design_ref="DESIGN.md section 6, C06; Appendix A.6; Appendix C")
